@@ -3,6 +3,7 @@
 # property's check and expects exit 1 with a VIOLATION line; reverts the change. Run after every engine or contract
 # change (takes a few minutes). /repo must have no uncommitted changes.
 cd "$(dirname "$0")/.."
+export VERIF_DIR=$(pwd)   # evidence, baselines and VC files of this copy of /verif, not of /verif itself
 REPO=${REPO:-/repo}   # a scratch checkout of /repo's HEAD may stand in (vp run --with-repo: REPO=$VP_RUN_REPO)
 if [ -n "$(git -C $REPO status --porcelain)" ]; then echo "refusing: /repo has uncommitted changes"; exit 2; fi
 bad=0
